@@ -33,6 +33,21 @@ CLAIMED = {
              'chain clause is decided per program by the proved-sound checker; the full C02_sound is not yet a single theorem; '
              'lexing and LALR parsing are shared with the implementation through the AST dump; F8, F16 fixed; F17, F18 known.',
         technique='Coq-certified per-program checker (soundness theorem) + layout model correspondence + partial universal theorems'),
+    'C03': dict(
+        category='proof',
+        text='Textual inliner spec (Spec/InlineSpec.v) and full transcription of the preprocessor (Model/Macro.v). Qed theorems: '
+             'C03_inline (the preprocessor model expands a well-formed macro tree to exactly the op list of its spec-inlined '
+             'macro-free program, labels equal up to debug start labels), C03_subst_once (arguments are substituted once, never '
+             're-substituted), C03_rep / C03_rep_zero, C03_fresh / C03_fresh_paths (generated names never collide with user '
+             'names and are injective in the expansion path), C03_split, C03_ns_resolve. Per run: generated macro programs '
+             'assembled by the real assembler as (a) macro program, (b) inliner output, (c) split files - identical images '
+             'required - and Macro.v / the C03_inline conclusion / wf_tree evaluated in Coq on the real parser\'s tree.',
+        design_ref='DESIGN.md section 4, C03',
+        note='partial: C03_inline is proved for the code\'s own naming (shown fresh and injective); the generalisation to every '
+             'admissible naming is stated, not proved, and is evaluated on the real code with flat names. Rep counts that '
+             'depend on label addresses are outside `inline`; `$` in call arguments is excluded (known finding F20); file '
+             'short names are assumed to be identifiers; lexer/LALR parser shared through the tree dump.',
+        technique='Coq simulation proof (preprocessor model = expansion of the spec-inlined program) + the property evaluated on the real assembler'),
     'C04': dict(
         category='proof',
         text='Theorems by kernel computation on images regenerated from the current stl and assembler on every run: for each '
@@ -145,6 +160,19 @@ CLAIMED = {
         note='C16_table is guarded by no_collision (known finding F17: `_.wflip_area_start_k` overwritten; N2: catch-all on the '
              'same name). JSON/LZMA round-trip laws are premises. The campaign does not cover stl or wflip-statement programs.',
         technique='Coq theorems on the label-table / breakpoint model + image-based correspondence of label addresses'),
+    'C17': dict(
+        category='proof',
+        text='Qed-closed universal theorems (list induction, no length bound): the Gallina transcription of FixedIO, StandardIO, '
+             'KeyboardIO (with the ScriptedKeyEventSource.from_text parser) and BrokenIO answers every interleaving of '
+             'read_bit/write_bit/get_output exactly as Spec/IOSpec.v requires: lsb-first packing, IncompleteOutput iff '
+             '|bits| mod 8 <> 0, EOF exactly at read 8*|input|+1, pack o unpack = id, the keyboard status-nibble/keycode '
+             'protocol in (tic, script order) with no early delivery and no EOF; the FixedIO output equals MachineSpec.out_bytes '
+             '(link to C01).',
+        design_ref='DESIGN.md section 4, C17',
+        note='The theorems are about the model; CPython is tied to it on every run by an exhaustive (<= 16 bits) plus randomised '
+             'correspondence campaign evaluated inside Coq. Not covered: sys.stdin/stdout plumbing, stdin characters >= 256, '
+             'non-ASCII script text or text over 4000 characters, the pygame live key source.',
+        technique='Coq list-induction theorems on the device models + exhaustive/random correspondence evaluated in Coq'),
     'C18': dict(
         category='proof',
         text='Qed-closed theorems on the machine with a failing device: a device exception at call k stops the run exactly at '
@@ -155,6 +183,23 @@ CLAIMED = {
         note='partial: asynchronous signal delivery at an arbitrary instruction is a runtime behaviour the model cannot '
              'exhibit; only device-raised KeyboardInterrupt is enumerated. Known finding F12.',
         technique='Coq prefix-consistency theorems + complete fault enumeration per program compared in Coq'),
+    'C19': dict(
+        category='proof',
+        text='Qed-closed theorems on Model/DevMem.v (the machine definition with a scripted device calling DeviceMemory at its IO '
+             'points, one model per adapter) and Model/Screen.v (InMemoryScreen decoder with every non-device exception as an '
+             'explicit exit): C19_view_consistent (in-segment device writes are what later device reads and program accesses '
+             'return, nothing else changes), C19_data_byte (packed byte = bits #w..#w+7 of the jump word, w >= 16), '
+             'C19_no_device_no_change, C19_engine_independent (Reader and native adapters give identical runs for in-segment '
+             'scripts), C19_screen_total, C19_screen_layout, C19_palette_layout, C19_rectangle_only_box. Every campaign case (5 '
+             'engine/storage configurations x device scripts; real InMemoryScreen on random valid/malformed streams and on '
+             'programs emitting them) is evaluated in Coq and cross-compared between engines.',
+        design_ref='DESIGN.md section 4, C19',
+        note='Engines are tied to the device-interleaved model by the per-run correspondence (flat/hybrid/paged; page, window and '
+             'segment edges; accesses to the executing op\'s own words); the C routing of Memory_get_word/set_word is covered by '
+             'C01_native_api_get_word/set_word and this campaign. Out-of-segment accesses are compared per adapter only (by '
+             'design). pygame window and PNG encoding not covered (pygame not installed); campaign screens are at most 12x10; '
+             'w=8 screens raise ValueError and are outside the property.',
+        technique='Coq theorems on a device-extended machine model and a total screen-decoder model + correspondence evaluated in Coq'),
 }
 
 PENDING_REASON = 'check not built yet in this round (planned per DESIGN.md section 4); not claimed until its theorems and correspondence exist'
